@@ -371,7 +371,7 @@ Form(f, k) ==
        [] f = "heredash" -> F(<<"cat <<-E", "\t" \o k, "\tE">>, <<>>, k \o "\n", 0)
        [] f = "cmdsub"  -> F(<<"probe $(", "echo " \o k, ")">>, <<<<k>>>>, "", -1)
        [] f = "arith"   -> F(<<"probe $((1 +", "2))">>, <<<<"3">>>>, "", -1)
-       [] f = "param"   -> F(<<"probe \"${u:-" \o k, "z}\"">>, <<<<k \o "\nz">>>>, "", -1)
+       [] f = "param"   -> F(<<"probe \"${nil:-" \o k, "z}\"">>, <<<<k \o "\nz">>>>, "", -1)
        [] f = "blank"   -> F(<<"if true; then", "", "# c", "probe " \o k, "fi">>, <<<<k>>>>, "", 0)
 AllForms == {"if", "ifelse", "while", "until", "for", "case", "brace", "paren", "func", "sq", "dq", "bsnl", "pipe",
              "pipenl", "and", "or", "heredoc", "heredoc2", "heredash", "cmdsub", "arith", "param", "blank"}
@@ -565,14 +565,19 @@ RECURSIVE After(_, _, _)
 RECURSIVE DigitRun(_, _)
 DigitRun(s, q) ==    \* positions after one or more digits starting at q
   IF q <= Len(s) /\ IsDigit(At(s, q)) THEN {q + 1} \cup DigitRun(s, q + 1) ELSE {}
-NoNewline(s, a, b) == \A q \in a..b : At(s, q) # "\n"
-NoMark(s, a, b) == \A q \in a..b : At(s, q) # "@"
+RECURSIVE DiagRun(_, _)
+DiagRun(s, q) ==     \* positions after complete lines starting at q, up to the first "@"
+  IF q > Len(s) \/ At(s, q) = "@" THEN {}
+  ELSE (IF At(s, q) = "\n" THEN {q + 1} ELSE {}) \cup DiagRun(s, q + 1)
+RECURSIVE OpenRun(_, _)
+OpenRun(s, q) ==     \* positions reachable from q without passing a newline
+  {q} \cup (IF q <= Len(s) /\ At(s, q) # "\n" THEN OpenRun(s, q + 1) ELSE {})
 AfterItem(s, it, P) ==
   CASE it[1] = "L" -> {p + Len(it[2]) : p \in {p \in P : p + Len(it[2]) <= Len(s) + 1 /\ SubSeq(s, p, p + Len(it[2]) - 1) = it[2]}}
     [] it[1] = "N" -> UNION {DigitRun(s, p) : p \in P}
     [] it[1] = "H" -> UNION {DigitRun(s, p) \cup (IF p <= Len(s) /\ At(s, p) = "!" THEN {p + 1} ELSE {}) : p \in P}
-    [] it[1] = "D" -> UNION {{q \in (p + 1)..(Len(s) + 1) : At(s, q - 1) = "\n" /\ NoMark(s, p, q - 1)} : p \in P}
-    [] it[1] = "X" -> UNION {{q \in p..(Len(s) + 1) : NoNewline(s, p, q - 1)} : p \in P}
+    [] it[1] = "D" -> UNION {DiagRun(s, p) : p \in P}
+    [] it[1] = "X" -> UNION {OpenRun(s, p) : p \in P}
     [] it[1] = "A" -> UNION {After(s, it[2][k], P) : k \in DOMAIN it[2]}
     [] it[1] = "R" -> LET rep[k \in 0..it[3]] == IF k = 0 THEN P ELSE After(s, it[4], rep[k - 1])
                       IN UNION {rep[k] : k \in it[2]..it[3]}
